@@ -38,8 +38,56 @@ def search(run):
     return None
 
 
+def extra(run):
+    """Decoding of mutated encodings (stream `schemamal`), compared in ONE direction: whenever the strict model
+    decoder accepts an input, pallas must accept it with the same value. The converse is outside the tie (pallas
+    reads through mismatched container heads in its hand-written codecs, ignores trailing bytes, and minicbor-derive
+    swallows unknown-variant errors of Option fields); how often that happened is recorded in the evidence."""
+    import collections
+    from lib import core
+    n = 1120 if run.tier == "quick" else 44800
+    rc, ops, err = core.sh([core.PVH, "gen", "schemamal", "--seed", str(run.seed), "--cases", str(n), "--tier", run.tier], timeout=1800)
+    if rc != 0:
+        run.broken.append({"kind": "correspondence", "name": "stream schemamal", "detail": "generator failed: " + err[-300:]})
+        return
+    impl, model, problems = core.run_pair("schemamal", ops, timeout=3600)
+    for p in problems:
+        run.broken.append({"kind": "correspondence", "name": "stream schemamal", "stream": "schemamal", "detail": p})
+    st = collections.Counter()
+    for r in core.compare(ops, impl, model, model_only=True):
+        run.evaluations += 1
+        bad = None
+        for k, op in enumerate(r.ops):
+            i = r.impl[k] if k < len(r.impl) else "<none>"
+            m = r.model[k] if k < len(r.model) else "<none>"
+            if i == "panic":
+                c = "impl-panic"
+            elif m.startswith("ok") and any(t.startswith("a") for t in m.split()[1:]):
+                c = "model-accepts-value-with-opaque-plutusdata (not compared)"
+            elif m.startswith("ok") and i == m:
+                c = "both-accept-same-value"
+            elif m.startswith("ok"):
+                c, bad = "MODEL-ACCEPTS-IMPL-DIFFERS", k
+            elif i.startswith("ok"):
+                c = "impl-accepts-model-rejects (outside the tie)"
+            else:
+                c = "both-reject"
+            st[c] += 1
+        if bad is not None:
+            r.diff_at = bad
+            run.broken.append({"kind": "correspondence", "name": "stream schemamal", "stream": "schemamal", "case": r,
+                               "detail": f"case {r.cid} op#{bad} `{r.ops[bad][:200]}`: the model decoder accepts (`{r.model[bad][:200]}`) but pallas "
+                                         f"answers `{r.impl[bad][:200]}`"})
+        else:
+            run.traces_ok += 1
+    run.extra_cov["mutated_input_decoding"] = {"cases": n, "inputs": sum(st.values()), "classes": dict(st),
+                                               "relation": "model accepts => implementation accepts with the same value"}
+    run.streams_run.append({"stream": "schemamal", "seed": run.seed, "cases": n})
+
+
 SPEC = {
     "search": search,
+    "extra": extra,
     "id": "C06",
     "level": "proof",
     "lean_modules": ["PallasVerif.Props.C06"],
@@ -68,12 +116,17 @@ SPEC = {
         "Model/SchemaHand.lean: RationalNumber and Conway CostModels written by hand from the source (the translator checks the source still has that shape)",
     ],
     "assumptions": [
-        "dec is a tree reading of minicbor's sequential decoder: equal on items whose container heads match their content (all encoder outputs, all chain data); "
-        "where minicbor reads through a mismatched head, leaves the break of an indefinite array unread (hand-written sums), or swallows an unknown-variant "
-        "error of an Option field (minicbor-derive), the model rejects",
+        "dec is a tree reading of minicbor's sequential decoder. Tie on decoding: (i) exact agreement (accept/reject and value) on every encoder output, on "
+        "well-formedness preserving re-encodings of them (wider heads, indefinite maps, repeated last map entry) and on the whole chain corpus; (ii) on "
+        "mutated inputs (stream schemamal: foreign sub-items, lengthened/shortened arrays, changed variant numbers / keys, byte flips, truncation) only "
+        "`model accepts => pallas accepts with the same value`. Outside the tie: inputs the model rejects and pallas accepts - hand-written codecs that do "
+        "not compare the array length with what they read (Relay, RationalNumber, Byron sums, the many-field arm of codec_by_datatype!), unit variants of "
+        "flat enums followed by surplus elements, the unread break of an indefinite array in hand-written sums, trailing bytes, minicbor-derive swallowing "
+        "an unknown-variant error of an Option field, input that is not well-formed CBOR; their number per run is in the evidence "
+        "(coverage.mutated_input_decoding)",
         "PlutusData is an opaque well-formed item here (its codec is C07's subject); generated values are built in memory (KeepRaw::from, empty raw); "
         "raw-carrying values are exercised through the chain corpus",
-        "value invariants the Rust types enforce or document are part of the value domain: NonZeroInt != 0, BTreeMap keys strictly increasing "
+        "value invariants the Rust types enforce or document are part of the value domain: NonZeroInt != 0, PositiveCoin != 0, BTreeMap keys strictly increasing "
         "in the derived Ord, String is valid UTF-8, Conway CostModels.unknown holds language ids >= 3, Byron TxIn/Twit/TxFeePol::Other carries a "
         "variant number that no listed variant uses (source comments `u8 .ne 0` / `.gt 2`; TxIn::Other(0, b) would decode as Variant0)",
     ],
